@@ -50,7 +50,7 @@ type c15Case struct {
 	Members  int       `json:"members"`
 	R        int       `json:"R"`              // reconnect timeout, hours
 	T        int       `json:"T"`              // tombstone timeout, hours
-	Override []int     `json:"override"`       // per member, hours; 0 = no override; -1 = half of whatever timeout applies
+	Override []int     `json:"override"`       // per member, hours; 0 = no override; -1 = half of whatever timeout applies; -2 = a timeout of zero ("forget at once")
 	Real     bool      `json:"real,omitempty"` // the node's own reaper goroutine does the reaping (see bodyC15Real)
 	Steps    []c15Step `json:"steps"`
 }
@@ -64,7 +64,7 @@ func genC15(t *rapid.T) c15Case {
 	c.Real = rapid.IntRange(0, 4).Draw(t, "real") == 0
 	hours := []int{0, 40, c.R, c.R, c.T, c.T}
 	for i := 0; i < c.Members; i++ {
-		o := rapid.SampledFrom([]int{0, 0, 0, 2, 6, 16, 30, -1}).Draw(t, "override")
+		o := rapid.SampledFrom([]int{0, 0, 0, 2, 6, 16, 30, -1, -2}).Draw(t, "override")
 		c.Override = append(c.Override, o)
 		if o > 0 {
 			hours = append(hours, o)
@@ -155,6 +155,8 @@ func bodyC15(c c15Case, x *vkit.Ctx) {
 	for i := 0; i < c.Members && i < len(c.Override); i++ {
 		if c.Override[i] > 0 {
 			ov[c15Name(i)] = time.Duration(c.Override[i]) * time.Hour
+		} else if c.Override[i] == -2 {
+			ov[c15Name(i)] = 0 // the override's answer is a timeout like any other, zero included
 		} else if c.Override[i] < 0 {
 			ov[c15Name(i)] = -1
 		}
